@@ -24,7 +24,7 @@ def matches(p, x):
 class C18(core.Prop):
     pid = 'C18'
     lean_modules = ['TddaVerif.Props.C18']
-    theorems_todo = [
+    theorems = [
         'TddaVerif.Props.C18.coverage_exact',
         'TddaVerif.Props.C18.coverage_dedup_exact',
         'TddaVerif.Props.C18.n_examples_exact',
